@@ -123,3 +123,44 @@ Print Assumptions rel_is_abs.
 Example ex_half_turn :
   ap_n (arc_params (of_Z F64 (-1)) 0 (of_Z F64 1) (of_Z F64 1) 0 false true (of_Z F32 1) 0) = 2.
 Proof. vm_compute. reflexivity. Qed.
+
+(* ---- the control points of the cubic segments (proofs/ArcCtrl.v).  arc_ctrl_gen is arcSegmentTo's control-point
+   computation over abstract numeric operations; the model's segment uses its float64 instance (segment_uses_ctrl), and
+   over the reals, in the ellipse's own frame (P(a) = (rx cos a, ry sin a), D = dP/da): the inner control points are
+   P(theta1) + t D(theta1) and P(theta2) - t D(theta2) with t = 4/3 tan((theta2 - theta1)/4) -- the control polygon is
+   tangent to the ellipse at both ends -- and the cubic's point at parameter 1/2 is the ellipse point at the middle
+   angle, so each segment meets the ellipse at its ends and in the middle.  (Rotation by phi and translation by the
+   centre are affine and applied identically to all four points.) ---- *)
+From IVG Require Import ArcCtrl.
+Local Open Scope R_scope.
+
+Theorem segment_uses_ctrl : forall (s : Arc.S) (cx cy theta1 theta2 rx ry cosphi sinphi : Z),
+  arc_segment s cx cy theta1 theta2 rx ry cosphi sinphi =
+  let '(x1, y1, x2, y2) := arc_ctrl_gen C64 theta1 theta2 rx ry in
+  let px (x y : Z) := absX N32 s (to32 (dsub (dadd cx (dmul cosphi x)) (dmul sinphi y))) in
+  let py (x y : Z) := absY N32 s (to32 (dadd (dadd cy (dmul sinphi x)) (dmul cosphi y))) in
+  let p3 := arc_point_gen A64 cx cy rx ry cosphi sinphi theta2 in
+  emit_keep N32 s (RCubeTo (px x1 y1) (py x1 y1) (px x2 y2) (py x2 y2)
+                           (absX N32 s (to32 (fst p3))) (absY N32 s (to32 (snd p3)))).
+Proof. exact ArcCtrl.arc_segment_ctrl. Qed.
+Print Assumptions segment_uses_ctrl.
+
+Theorem control_points_tangent : forall theta1 theta2 rx ry : R,
+  let '(x1, y1, x2, y2) := arc_ctrl_gen CR theta1 theta2 rx ry in
+  let t := arc_t_gen CR theta1 theta2 in
+  x1 = Px rx theta1 + t * Dx rx theta1 /\ y1 = Py ry theta1 + t * Dy ry theta1 /\
+  x2 = Px rx theta2 - t * Dx rx theta2 /\ y2 = Py ry theta2 - t * Dy ry theta2.
+Proof. exact ArcCtrl.ctrl_tangent. Qed.
+Print Assumptions control_points_tangent.
+
+Theorem control_parameter : forall theta1 theta2 : R, sin ((theta2 - theta1) / 2) <> 0 ->
+  arc_t_gen CR theta1 theta2 = 4 / 3 * tan ((theta2 - theta1) / 2 / 2).
+Proof. exact ArcCtrl.t_is_tan. Qed.
+Print Assumptions control_parameter.
+
+Theorem segment_midpoint_on_ellipse : forall theta1 theta2 rx ry : R, sin ((theta2 - theta1) / 2) <> 0 ->
+  let '(x1, y1, x2, y2) := arc_ctrl_gen CR theta1 theta2 rx ry in
+  (Px rx theta1 + 3 * x1 + 3 * x2 + Px rx theta2) / 8 = Px rx ((theta1 + theta2) / 2) /\
+  (Py ry theta1 + 3 * y1 + 3 * y2 + Py ry theta2) / 8 = Py ry ((theta1 + theta2) / 2).
+Proof. exact ArcCtrl.ctrl_midpoint. Qed.
+Print Assumptions segment_midpoint_on_ellipse.
